@@ -160,6 +160,31 @@ def gen_history(rng, length, two_models_p=0.6, inherit=False, absolute=False):
             add_spaces(1)
             open_models.append(1)
             continue
+        if not inherit and len(spaces[m]) < 6 and rng.random() < 0.06:
+            # a space CREATED with references: new_space(refs=...) - several names, often ONE object, often an
+            # object that has a spec - or the copy of a space (its references and cells)
+            snew = max(spaces[m]) + 1
+            if rng.random() < 0.5:
+                names = rng.sample(REFNAMES, rng.choice([1, 2, 2, 3]))
+                bv = bound_vals(m, with_spec=True) or bound_vals(m)
+                twin = rng.choice(bv) if bv and rng.random() < 0.75 else any_df()
+                binds = []
+                for n_ in names:
+                    q = rng.random()
+                    v = twin if q < 0.7 else (any_df() if q < 0.85 else rng.choice(["p0", "i0"]))
+                    binds.append((n_, v))
+                ops.append(["newspacerefs", str(m), str(snew), "S%d" % snew,
+                            ",".join("%s=%s" % b for b in binds)])
+                for n_, v in binds:
+                    bound[(m, snew, n_)] = v
+            else:
+                src = rng.choice(spaces[m])
+                ops.append(["copyspace", str(m), str(src), str(snew), "S%d" % snew])
+                for (mm, s_, n_), v in list(bound.items()):
+                    if mm == m and s_ == src:
+                        bound[(m, snew, n_)] = v
+            spaces[m].append(snew)
+            continue
         if r < 0.24:
             ms, ss = owner(m)
             q = rng.random()
@@ -477,6 +502,26 @@ class World:
                 model.get_spec(self.val(op[2], m)).path = self.path_arg(m, op[3])
             else:
                 model.del_spec(self.val(op[2], m))
+            return "ok"
+        if kind in ("newspacerefs", "copyspace"):
+            s = int(op[3] if kind == "copyspace" else op[2])
+            if s == 0 or (m, s) in self.used:
+                return "err dead"           # the op language: one index per space
+            if kind == "newspacerefs":
+                refs = {}
+                if op[4] != "-":
+                    for b in op[4].split(","):
+                        n_, _, v_ = b.partition("=")
+                        refs[n_] = self.val(v_, m)
+                sp = self.models[m].new_space(op[3], refs=refs)
+            else:
+                src = int(op[2])
+                if src == 0 or (m, src) not in self.handles:
+                    return "err dead"
+                sp = self.handles[(m, src)].copy(self.models[m], op[4])
+            self.spaces[(m, s)] = sp
+            self.handles[(m, s)] = sp
+            self.used.add((m, s))
             return "ok"
         s = int(op[2])
         if kind == "newspace":
@@ -978,6 +1023,38 @@ def move_scenarios():
     return res
 
 
+def twin_scenarios():
+    """spaces CREATED with references (new_space(refs=...), copy) in which one object - with an IOSpec - is bound
+    to several names, followed by the deletion (or rebinding) of the references to it in EVERY order: the spec
+    must live exactly until the last of them goes"""
+    import itertools
+    res = []
+    head = [["newmodel", "0"], ["newspace", "0", "1", "S1"]]
+    # (a) S1.x has the spec; S2 is created with x, y (and z) = the same object
+    for binds in ("x=d0,y=d0", "y=d0,x=d0", "x=d0,y=d0,z=d0", "x=d0,y=d1,z=d0"):
+        made = [["newpandas", "0", "1", "x", "a.csv", "csv", "-", "d0"],
+                ["newspacerefs", "0", "2", "S2", binds]]
+        targets = [("1", "x")] + [("2", b.split("=")[0]) for b in binds.split(",") if b.endswith("=d0")]
+        for order in itertools.permutations(targets):
+            for how in ("del", "bind"):
+                res.append(head + made + [[how, "0", s_, n_] + (["p0"] if how == "bind" else []) for s_, n_ in order])
+    # (b) the spec is created through the new space itself, after the creation
+    for order in itertools.permutations([("2", "x"), ("2", "y")]):
+        res.append(head + [["newspacerefs", "0", "2", "S2", "x=d0,y=d0"],
+                           ["newpandas", "0", "2", "x", "a.csv", "csv", "-", "d0"]]
+                   + [["del", "0", s_, n_] for s_, n_ in order] + [["bind", "0", "1", "x", "d0"]])
+    # (c) a copy of a space that holds one object under two names (within the model)
+    made = [["newpandas", "0", "1", "x", "a.csv", "csv", "-", "d0"], ["bind", "0", "1", "y", "d0"],
+            ["newcells", "0", "1", "c", "1"], ["copyspace", "0", "1", "2", "S2"]]
+    for order in itertools.permutations([("1", "x"), ("1", "y"), ("2", "x"), ("2", "y")]):
+        res.append(head + made + [["del", "0", s_, n_] for s_, n_ in order])
+    # (d) copy of the copy, update_pandas in between, close at the end
+    res.append(head + made + [["copyspace", "0", "2", "3", "S3"], ["update", "0", "d0", "d1"],
+                              ["del", "0", "1", "x"], ["del", "0", "1", "y"], ["del", "0", "3", "y"],
+                              ["del", "0", "3", "x"], ["del", "0", "2", "x"], ["del", "0", "2", "y"], ["close", "0"]])
+    return res
+
+
 def no_model(h):
     """histories outside the Lean model: inheritance between spaces, absolute paths"""
     return any(o[0] in ("addbase", "rmbase") or (o[0] == "newspace" and len(o) > 4)
@@ -1067,6 +1144,13 @@ def run(ctx, out):
     stats["absolute_path_stream"] = dict(sorted(astats.items()))
     stats["absolute_path_stream"]["histories"] = n_abs
     stats["absolute_path_stream"]["move_scenarios"] = len(move_scenarios())
+    twins = twin_scenarios()
+    tstats = {}
+    for i, h in enumerate(twins):
+        feats, executed = run_history(h, out, tstats, do_roundtrip=(i % 16 == 0), with_model=True)
+        total_ops += executed
+        seen.add(repr(h))
+    stats["created_with_refs_scenarios"] = {"histories": len(twins), **dict(sorted(tstats.items()))}
     for i, h in enumerate(hists):
         feats, executed = run_history(h, out, stats, do_roundtrip=(i < len(corpus) or i % rt_every == 0),
                                       with_model=not no_model(h))
@@ -1087,7 +1171,7 @@ def run(ctx, out):
     out.coverage.update({
         "evaluations": total_ops,
         "distinct_nontrivial": len(nontrivial),
-        "rule": "histories of ~%d ops (new_pandas / assignment / deletion of references and spaces / update_pandas / "
+        "rule": "histories of ~%d ops (new_pandas / assignment / new_space(refs=) / copy of a space / deletion of references and spaces / update_pandas / "
 "sheet setter / path setter / del_spec / close, also through the handles of closed models and deleted "
                 "spaces) over <= 2 models x 2-3 spaces, files %s under several spellings, sheets %s; evaluations = ops "
                 "executed on modelx with all oracles; distinct by op text; non-trivial = some spec'd value was bound to "
